@@ -2218,6 +2218,18 @@ func (interp *Interpreter) cfg(root *node, sc *scope, importPath, pkgName string
 					c.tnext = body.start
 					c.child[0].tnext = c
 					c.start = c.child[0].start
+					if last := len(c.child) - 2; n.kind == switchStmt && last > 0 {
+						// The expressions of a list are evaluated and compared to the tag in order, until
+						// a match is found. The clause node compares the last expression, each preceding
+						// expression gets a comparison node of its own, present in the CFG only.
+						c.child[last].tnext = c
+						for j, e := range c.child[:last] {
+							e.tnext = &node{
+								anc: c.anc, interp: c.interp, index: c.index, pos: e.pos, kind: caseClause, action: aCase, gen: c.gen,
+								child: []*node{e, body}, tnext: body.start, fnext: c.child[j+1].start,
+							}
+						}
+					}
 
 					if next := nextClause(c); next != nil && len(body.child) > 0 && body.lastChild().kind == fallthroughtStmt {
 						if n.kind == typeSwitch {
@@ -2273,14 +2285,19 @@ func (interp *Interpreter) cfg(root *node, sc *scope, importPath, pkgName string
 				} else {
 					body := c.lastChild()
 					if len(c.child) > 1 {
-						cond := c.child[0]
-						cond.tnext = body.start
-						if i == l-1 {
-							setFNext(cond, n)
-						} else {
-							setFNext(cond, clauses[i+1].start)
+						// The conditions of a list are evaluated in order, until one is true.
+						for j, cond := range c.child[:len(c.child)-1] {
+							cond.tnext = body.start
+							switch {
+							case j < len(c.child)-2:
+								setFNext(cond, c.child[j+1].start)
+							case i == l-1:
+								setFNext(cond, n)
+							default:
+								setFNext(cond, clauses[i+1].start)
+							}
 						}
-						c.start = cond.start
+						c.start = c.child[0].start
 					} else {
 						c.start = body.start
 					}
